@@ -26,9 +26,11 @@ def alphabet(spec):
     return out
 
 
-COMMON = {'fork': 1, 'full': 1, 'mutate_views': 1, 'views': 1, 'xcopy': 1,
+COMMON = {'fork': 2, 'full': 1, 'mutate_views': 1, 'views': 1, 'xcopy': 1,
           'peer': 1, 'xcopy_vars': 1, 'file_roundtrip': 1, 'queries': 1,
-          'traverse': 1, 'add_var': 1}
+          'traverse': 1, 'add_var': 1, 'decref_zero': 1, 'incref': 1,
+          'decref': 1, 'bad': (2, [len(W.World.BAD_KINDS) - 1, 65535,
+                                   65535])}
 
 
 def run_random(spec, out, alpha, nontrivial, shutdown=False):
